@@ -118,4 +118,207 @@ theorem gq_callActs (d : Nat) (A : Alg P) (want : Nat) (cR cW : List P) (h1 : 1 
     · simp [callActs, stepActs, stepThr, hr, ha, wKeeps, hw.symm]
     · simp [callActs, stepActs, stepThr, hr, ha, wKeeps, hw, hlen]
 
+theorem gq_ok_bind {α β : Type} (x : α) (f : α → R β) : (Except.ok x >>= f) = f x := rfl
+theorem gq_pure {α : Type} (x : α) : (pure x : R α) = .ok x := rfl
+
+/-- the generated `Decryptor::compute_secret_key_array`, in closed form: `L` / `M` = polynomials in the shared vector under the read /
+    the write lock -/
+theorem gq_dec_compute_flat (w n k L M : Nat) (hd : 0 < n * k) (hnk : n * k < B64) (hA : max L w * n * k < B64) :
+    GenConc.dec_compute_secret_key_array w n k (L * (n * k)) (M * (n * k)) =
+      .ok (if L = max L w then [1, 2]
+           else [1, 10, max L w * n * k, 11, L * (n * k), 2, 12, L, max L w - L, 3] ++
+             (if M = max M w then [4] else [13, max L w * n * k, 4])) := by
+  have hk : 0 < k := Nat.pos_of_mul_pos_left hd
+  have hLm : L ≤ max L w := Nat.le_max_left _ _
+  have hmn : max L w * n ≤ max L w * n * k := Nat.le_mul_of_pos_right _ hk
+  have hass : max L w * n * k = max L w * (n * k) := Nat.mul_assoc _ _ _
+  have hLle : L * (n * k) ≤ max L w * n * k := by rw [hass]; exact Nat.mul_le_mul_right _ hLm
+  have e1 : ckMul n k = .ok (n * k) := by unfold ckMul; rw [if_pos hnk]
+  have e2 : ckMod (L * (n * k)) (n * k) = .ok 0 := by unfold ckMod; rw [if_neg (by omega), Nat.mul_mod_left]
+  have e3 : ckDiv (L * (n * k)) (n * k) = .ok L := by unfold ckDiv; rw [if_neg (by omega), Nat.mul_div_cancel _ hd]
+  have e4 : ckMul (max L w) n = .ok (max L w * n) := by unfold ckMul; rw [if_pos (by omega)]
+  have e5 : ckMul (max L w * n) k = .ok (max L w * n * k) := by unfold ckMul; rw [if_pos hA]
+  have e6 : ckMul L (n * k) = .ok (L * (n * k)) := by unfold ckMul; rw [if_pos (by omega)]
+  have e7 : ckSub (max L w) L = .ok (max L w - L) := by unfold ckSub; rw [if_pos hLm]
+  have e8 : ckMod (max L w * n * k) (n * k) = .ok 0 := by unfold ckMod; rw [if_neg (by omega), hass, Nat.mul_mod_left]
+  have e9 : ckDiv (M * (n * k)) (n * k) = .ok M := by unfold ckDiv; rw [if_neg (by omega), Nat.mul_div_cancel _ hd]
+  unfold GenConc.dec_compute_secret_key_array
+  simp only [e1, e2, e3, gq_ok_bind, if_true]
+  by_cases hr : L = max L w
+  · rw [if_pos hr, if_pos hr]; rfl
+  · rw [if_neg hr, if_neg hr]
+    simp only [e4, e5, e6, e7, e8, e9, gq_ok_bind, if_true, if_pos hLle, if_pos (Nat.le_refl _)]
+    by_cases hw : M = max M w
+    · simp [hw.symm, gq_pure]
+    · simp [hw, gq_pure]
+
+/-- `KeyGenerator::compute_secret_key_array` translates to the same term as the Decryptor's -/
+theorem gq_kg_eq_dec : @GenConc.kg_compute_secret_key_array = @GenConc.dec_compute_secret_key_array := rfl
+
+/-- EQUALITY (phase structure of the double-checked update): for every request, every cache `cR` the thread sees under the read lock and
+    every cache `cW` it sees under the write lock, the generated program of `compute_secret_key_array` is the model's call -/
+theorem gq_dec_compute_eq (A : Alg P) (want n k : Nat) (cR cW : List P) (hd : 0 < n * k) (hnk : n * k < B64)
+    (hA : max cR.length want * n * k < B64) (h1 : 1 ≤ cR.length) :
+    GenConc.dec_compute_secret_key_array want n k (cR.length * (n * k)) (cW.length * (n * k)) =
+      .ok (encode (callActs (n * k) true A want cR cW)) := by
+  rw [gq_dec_compute_flat want n k _ _ hd hnk hA, gq_callActs (n * k) A want cR cW h1]
+  have hass : max cR.length want * n * k = max cR.length want * (n * k) := Nat.mul_assoc _ _ _
+  by_cases hr : cR.length = max cR.length want
+  · rw [if_pos hr, if_pos hr]; rfl
+  · rw [if_neg hr, if_neg hr]
+    by_cases hw : cW.length = max cW.length want
+    · rw [if_pos hw, if_pos hw, hass]; rfl
+    · rw [if_neg hw, if_neg hw, hass]; rfl
+
+/-! ### the use phases -/
+
+/-- the use phase of `KeyGenerator::generate_rlk` (count ∈ [1, 14]): nested call for `count + 1` powers, then ONE read region in which
+    `count` polynomials are read from word offset `n·k`; refused when the snapshot is shorter than one polynomial -/
+theorem gq_generate_rlk_eq (count n k lenU : Nat) (hc : 1 ≤ count) (hc2 : count ≤ 14) (hnk : n * k < B64) :
+    GenConc.kg_generate_rlk count true n k lenU =
+      if n * k ≤ lenU then .ok (encode [.call (count + 1), .acqR, .keys (n * k) count, .relR]) else .error .refused := by
+  have e1 : ckMul n k = .ok (n * k) := by unfold ckMul; rw [if_pos hnk]
+  have e2 : ckSub 16 2 = .ok 14 := rfl
+  have e3 : ckAdd count 1 = .ok (count + 1) := by unfold ckAdd; rw [if_pos (by simp only [B64]; omega)]
+  unfold GenConc.kg_generate_rlk
+  have h0 : ¬ count = 0 := by omega
+  have h14 : ¬ count > 14 := by omega
+  simp only [if_true, if_neg h0, e1, e2, e3, gq_ok_bind, gq_pure, decide_eq_true_eq, h14, decide_false, Bool.false_eq_true, if_false]
+  by_cases h : n * k ≤ lenU
+  · rw [if_pos h, if_pos h]; rfl
+  · rw [if_neg h, if_neg h]
+
+/-- the slice `KEYS off cnt` (cnt polynomials of `d` words from offset `d`) lies inside a cache of `L` polynomials iff the model's use
+    phase does not panic (`want = cnt + 1 ≤ L`) -/
+theorem gq_keys_in_range (d cnt L : Nat) (hd : 0 < d) : d + cnt * d ≤ L * d ↔ cnt + 1 ≤ L := by
+  have : d + cnt * d = (cnt + 1) * d := by rw [Nat.add_mul, Nat.one_mul, Nat.add_comm]
+  rw [this]
+  exact ⟨fun h => Nat.le_of_mul_le_mul_right h hd, fun h => Nat.mul_le_mul_right _ h⟩
+
+/-- second loop of `dot_product_ct_sk_array` (the additions: data only) -/
+theorem gq_dot_loop2 (tr : List Nat) (v4 : Nat) (v6 : Bool) : ∀ (fuel i : Nat),
+    GenConc.dec_dot_product_ct_sk_array_loop2 tr v4 v6 fuel i = .ok (tr ++ [2]) := by
+  intro fuel
+  induction fuel with
+  | zero => intro i; rfl
+  | succ f ih => intro i; rw [GenConc.dec_dot_product_ct_sk_array_loop2]; exact ih _
+
+/-- first loop of `dot_product_ct_sk_array`: iteration `j` reads `[j·s, j·s + w)` of the snapshot of `L` words -/
+theorem gq_dot_loop1 (L v4 : Nat) (v6 : Bool) (w s : Nat) (h4 : 1 ≤ v4) : ∀ (fuel i : Nat) (tr : List Nat),
+    (i + fuel) * s + w < B64 → (∀ j, j < fuel → (i + j) * s + w ≤ L) →
+    GenConc.dec_dot_product_ct_sk_array_loop1 L tr v4 v6 w s fuel i =
+      .ok (tr ++ (List.range fuel).flatMap (fun j => [15, (i + j) * s, (i + j) * s + w]) ++ [2]) := by
+  intro fuel
+  induction fuel with
+  | zero =>
+    intro i tr _ _
+    have e : ckSub v4 1 = .ok (v4 - 1) := by unfold ckSub; rw [if_pos h4]
+    rw [GenConc.dec_dot_product_ct_sk_array_loop1]
+    simp only [e, gq_ok_bind, gq_dot_loop2, List.range_zero, List.flatMap_nil, List.append_nil]
+  | succ f ih =>
+    intro i tr hB hin
+    have hle : i * s ≤ (i + (f + 1)) * s := Nat.mul_le_mul_right _ (by omega)
+    have e1 : ckMul i s = .ok (i * s) := by unfold ckMul; rw [if_pos (by omega)]
+    have e2 : ckAdd (i * s) w = .ok (i * s + w) := by unfold ckAdd; rw [if_pos (by omega)]
+    have h0 := hin 0 (by omega)
+    rw [Nat.add_zero] at h0
+    rw [GenConc.dec_dot_product_ct_sk_array_loop1]
+    simp only [e1, e2, gq_ok_bind, if_pos (Nat.le_add_right _ _), if_pos h0]
+    rw [ih (i + 1) _ (by rw [show i + 1 + f = i + (f + 1) by omega]; exact hB)
+      (fun j hj => by rw [show i + 1 + j = i + (j + 1) by omega]; exact hin (j + 1) (by omega))]
+    rw [List.range_succ_eq_map, List.flatMap_cons, List.flatMap_map]
+    simp only [Nat.add_zero, List.append_assoc, List.cons_append, List.nil_append, Function.comp_def]
+    have : (fun j => [15, (i + 1 + j) * s, (i + 1 + j) * s + w]) = (fun j => [15, (i + (j + 1)) * s, (i + (j + 1)) * s + w]) := by
+      funext j; rw [show i + 1 + j = i + (j + 1) by omega]
+    rw [this]
+
+theorem gq_encode_append (a b : List Act) : encode (a ++ b) = encode a ++ encode b := by simp [encode]
+
+/-- the use phase of `Decryptor::dot_product_ct_sk_array` for a ciphertext of `size ≥ 2` polynomials when the snapshot holds `L ≥ size − 1`
+    key powers of `n·kkey` words (what `C17.use_sees_enough` provides): nested call for `size − 1` powers, then ONE read region; for
+    `size ≥ 3` power `i` is read at word offset `i·(n·kkey)` - the stride is the KEY level's polynomial size, a constant of the context,
+    not a value read in an earlier lock region - over the `n·k` words of the ciphertext's level -/
+theorem gq_dot_product_eq (size n k kkey : Nat) (ntt : Bool) (L : Nat) (h2 : 2 ≤ size) (hk : k ≤ kkey)
+    (hB : size * (n * kkey) < B64) (hsee : size - 1 ≤ L) :
+    GenConc.dec_dot_product_ct_sk_array size n k kkey ntt (L * (n * kkey)) =
+      .ok (encode ([.call (size - 1), .acqR] ++
+        (if size = 2 then [.readFirst] else (List.range (size - 1)).map fun i => .read (i * (n * kkey)) (i * (n * kkey) + n * k)) ++ [.relR])) := by
+  have e0 : ckSub size 1 = .ok (size - 1) := by unfold ckSub; rw [if_pos (by omega)]
+  have hnk : n * k ≤ n * kkey := Nat.mul_le_mul_left _ hk
+  have hs1 : n * kkey ≤ size * (n * kkey) := Nat.le_mul_of_pos_left _ (by omega)
+  have e1 : ckMul n k = .ok (n * k) := by unfold ckMul; rw [if_pos (by omega)]
+  have e2 : ckMul n kkey = .ok (n * kkey) := by unfold ckMul; rw [if_pos (by omega)]
+  unfold GenConc.dec_dot_product_ct_sk_array
+  simp only [e0, gq_ok_bind]
+  by_cases hs : size = 2
+  · subst hs; rfl
+  · rw [if_neg hs, if_neg hs]
+    simp only [e1, e2, gq_ok_bind]
+    have hsz : (size - 1) * (n * kkey) + n * kkey = size * (n * kkey) := by
+      rw [← Nat.succ_mul]; congr 1; omega
+    rw [gq_dot_loop1 _ size _ _ _ (by omega) (size - 1) 0 _ (by rw [Nat.zero_add]; omega)
+      (fun j hj => by
+        rw [Nat.zero_add]
+        calc j * (n * kkey) + n * k ≤ j * (n * kkey) + n * kkey := Nat.add_le_add_left hnk _
+          _ = (j + 1) * (n * kkey) := (Nat.succ_mul _ _).symm
+          _ ≤ L * (n * kkey) := Nat.mul_le_mul_right _ (by omega))]
+    simp only [Nat.zero_add, gq_encode_append]
+    simp [encode, Act.code, List.flatMap_map]
+
+/-! ### the Galois permutation-table cache: `GaloisTool::apply_ntt` -/
+
+variable {T : Type}
+
+def olen (len : T → Nat) : Option T → Nat
+  | none => 0
+  | some x => len x
+
+/-- what a thread observes of the table vector: the length of every table -/
+def lens (len : T → Nat) (tb : List (Option T)) : List Nat := tb.map (olen len)
+
+/-- the actions of ONE model step of `gstepThr` (the thread sees `tables`) -/
+def gStepActs (len : T → Nat) (tables : List (Option T)) (t : GThr T) : List Act :=
+  match t.calls[t.pos]?, t.pc with
+  | some _, .chk => [.acqR, .relR]
+  | some ix, .gen => [.acqW, .gen ix, .relW]
+  | some ix, .use => (match tables[ix]? with | some e => [.acqR, .use ix (olen len e), .relR] | none => [])
+  | _, _ => []
+
+/-- one call `apply_ntt` for table index `ix` of the model: check step (sees `tK`), generate step if the check asked for it, use step
+    (sees `tU`); `none` = the model panics -/
+def gCallActs (len : T → Nat) (gen : Nat → T) (ix : Nat) (tK tU : List (Option T)) : Option (List Act) :=
+  let t0 : GThr T := { calls := [ix] }
+  let t1 := (gstepThr gen tK t0).2
+  if t1.pc = .panicked then none else
+    let a2 := if t1.pc = .gen then gStepActs len tK t1 else []
+    let t2 := if t1.pc = .gen then (gstepThr gen tK t1).2 else t1
+    if (gstepThr gen tU t2).2.pc = .panicked then none
+    else some (gStepActs len tK t0 ++ a2 ++ gStepActs len tU t2)
+
+/-- EQUALITY (phase structure of the table cache): for every index and every pair of observed table vectors, the generated program of
+    `apply_ntt` is the model's call; it is refused (index out of range) exactly when the model panics.  `hpos`: a generated table is not
+    empty (it has `coeff_count ≥ 2` entries), so "empty" means "not generated". -/
+theorem gq_apply_ntt_eq (len : T → Nat) (hpos : ∀ x, 0 < len x) (gen : Nat → T) (ix cc : Nat) (tK tU : List (Option T)) :
+    GenConc.galois_apply_ntt ix cc cc (lens len tK) (lens len tU) =
+      match gCallActs len gen ix tK tU with
+      | none => .error .oob
+      | some a => .ok (encode a) := by
+  have hk : (lens len tK)[ix]? = (tK[ix]?).map (olen len) := by simp [lens]
+  have hu : (lens len tU)[ix]? = (tU[ix]?).map (olen len) := by simp [lens]
+  unfold GenConc.galois_apply_ntt GenW.idx
+  simp only [hk, hu]
+  cases h1 : tK[ix]? with
+  | none => simp [gCallActs, gstepThr, h1]; rfl
+  | some e =>
+    cases e with
+    | none =>
+      cases h2 : tU[ix]? with
+      | none => simp [gCallActs, gstepThr, h1, h2, olen, gq_ok_bind, gq_pure]; rfl
+      | some e2 => simp [gCallActs, gstepThr, gStepActs, h1, h2, olen, gq_ok_bind, gq_pure, encode, Act.code]
+    | some x =>
+      have hx : len x ≠ 0 := Nat.pos_iff_ne_zero.mp (hpos x)
+      cases h2 : tU[ix]? with
+      | none => simp [gCallActs, gstepThr, h1, h2, olen, hx, gq_ok_bind, gq_pure]; rfl
+      | some e2 => simp [gCallActs, gstepThr, gStepActs, h1, h2, olen, hx, gq_ok_bind, gq_pure, encode, Act.code]
+
 end HC.ConcProg
